@@ -17,6 +17,11 @@ CLAIMS = {
          "Responses from a grammar over all server-side package and data types are delivered once in a single packet/read and once fragmented (packet level through Channel.WritePacket, byte level through the real reader goroutine over a scripted transport whose read() results are generated); both must deliver identical package sequences equal to the delivery model and queue no error; every single cut (thorough: every pair incl. header-only packets) of short responses and all 2^(n-1) cut sets of 5 tiny streams are enumerated.",
          "Server packets are type RESPONSE on channel 0; non-informational EED only between statements; responses are kept short so that cut sets can be enumerated; the byte level uses the verif hook that mirrors NewConn's tail.",
          "DESIGN.md section 3, C02"),
+ "C03": ("exploration",
+         "rapid model-based histories of request/response rounds (response grammar x packetisation x consumer strategy with a per-package callback plan) + exhaustive triples of response shapes x strategies; oracle = delivery model of each round",
+         "Histories of 1..6 rounds on one channel are generated with every consumer strategy (NextPackage, NextPackageUntil with continue/true/io.EOF/error plans, nil callback); after each round the consumer's view must equal the model (one final DONE, last), a callback error must come back with the rest of the response consumed, and nothing may leak into the next round; all ordered triples of 7 response shapes under 25 strategy pairs are enumerated.",
+         "Packet level (deterministic): the whole response is delivered before the consumer reads; a 2 s watchdog only fires if the final DONE is missing, which is itself the violation.",
+         "DESIGN.md section 3, C03"),
  "C04": ("exploration",
          "rapid value generators per data type (boundary-biased) + exhaustive small domains / every day / every tick; oracle = round trip (Bytes -> GoValue -> Bytes) compared through an independent value description",
          "Every data type with a Go mapping (each legal width of the nullable families) is round-tripped for generated values over the whole Go domain; 8- and 16-bit domains, NULLs, every day of years 1..9999 and every 1/300 s tick are enumerated completely in the thorough tier (stride-sampled in quick).",
